@@ -99,6 +99,15 @@ def gen(ctx):
                     toks.insert(rng.randrange(1, len(toks) + 1) if len(toks) > 1 else 1, "!")
                 interrupted.append((len(cases), idx[0]))
                 cases.append(" ".join(["recv", fl, "1", tail] + toks))
+    # greetings around and beyond the receive buffer's capacity: both flavours connect, under every segmentation, and deliver what follows
+    for gl in (4080, 4088, 4089, 4090, 4091, 5000, 8185, 9000):
+        s = b"OK MPD " + b"7" * gl + b"\n" + b"a: b\nOK\nbinary: 3\nxyz\nOK\n"
+        idx = []
+        for seg in [g.seg_whole(s), [s[:4096], s[4096:]], [s[i:i + 1000] for i in range(0, len(s), 1000)], g.seg_random(rng, s, maxlen=4096), [s[:len(s) - 5], s[len(s) - 5:]]]:
+            for fl in ("b", "a"):
+                idx.append(len(cases))
+                cases.append(g.case_line("conn", fl, 1, "eof", [c for c in seg if c]))
+        groups.append(idx)
     # the same question for connect + receive (bytes in the same read as the greeting, D1)
     for body in (b"foo: bar\nOK\n", b"OK\n", b"", b"x", b"binary: 1\nq\nOK\nrest: 1\nOK\n"):
         s = b"OK MPD 0.23.5\n" + body
